@@ -1,4 +1,5 @@
 import Typegen.TypeStr
+import Typegen.Esc
 /-! Model of the three renderers of `TypeStructure`:
     `TypeVisitor::visit_type` as implemented by `TypeScriptVisitor` (= `ZodVisitor::visit_type_for_interface`),
     `ZodVisitor::visit_type`, `ZodSchemaBuilder::render_type`, and the string filter `add_types_prefix`.
@@ -48,35 +49,35 @@ end
 
 /-! ### `ZodVisitor::visit_type` -/
 def zodPrim (p : Str) : Str :=
-  if p = "string".toList then "z.string()".toList
-  else if p = "number".toList then "z.number()".toList
-  else if p = "boolean".toList then "z.boolean()".toList
-  else if p = "void".toList then "z.void()".toList
-  else "z.unknown() /* Unexpected: ".toList ++ p ++ " */".toList
+  if p = cl!"string" then cl!"z.string()"
+  else if p = cl!"number" then cl!"z.number()"
+  else if p = cl!"boolean" then cl!"z.boolean()"
+  else if p = cl!"void" then cl!"z.void()"
+  else cl!"z.unknown() /* Unexpected: " ++ p ++ cl!" */"
 
 def zodMapped (mapped : Str) : Str :=
-  if mapped = "string".toList then "z.string()".toList
-  else if mapped = "number".toList then "z.number()".toList
-  else if mapped = "boolean".toList then "z.boolean()".toList
-  else if mapped = "void".toList then "z.void()".toList
-  else "z.custom<".toList ++ mapped ++ ">((val) => true)".toList
+  if mapped = cl!"string" then cl!"z.string()"
+  else if mapped = cl!"number" then cl!"z.number()"
+  else if mapped = cl!"boolean" then cl!"z.boolean()"
+  else if mapped = cl!"void" then cl!"z.void()"
+  else cl!"z.custom<" ++ mapped ++ cl!">((val) => true)"
 
 def zodCustom (m : Mappings) (n : Str) : Str :=
   match lookup m n with
   | some mapped => zodMapped mapped
-  | none => n ++ "Schema".toList
+  | none => n ++ cl!"Schema"
 
 mutual
 def visitZod (m : Mappings) : TS → Str
   | .prim p => zodPrim p
-  | .array t => "z.array(".toList ++ visitZod m t ++ [')']
-  | .map k v => "z.record(".toList ++ visitZod m k ++ sComma ++ visitZod m v ++ [')']
-  | .set t => "z.array(".toList ++ visitZod m t ++ [')']
+  | .array t => cl!"z.array(" ++ visitZod m t ++ [')']
+  | .map k v => cl!"z.record(" ++ visitZod m k ++ sComma ++ visitZod m v ++ [')']
+  | .set t => cl!"z.array(" ++ visitZod m t ++ [')']
   | .tuple ts =>
     match ts with
-    | .nil => "z.void()".toList
-    | .cons t rest => "z.tuple([".toList ++ joinWith sComma (visitZod m t :: visitZodList m rest) ++ "])".toList
-  | .optional t => visitZod m t ++ ".nullable()".toList
+    | .nil => cl!"z.void()"
+    | .cons t rest => cl!"z.tuple([" ++ joinWith sComma (visitZod m t :: visitZodList m rest) ++ cl!"])"
+  | .optional t => visitZod m t ++ cl!".nullable()"
   | .result t => visitZod m t
   | .custom n => zodCustom m n
 def visitZodList (m : Mappings) : TSList → List Str
@@ -98,27 +99,21 @@ structure Validator where
   url : Bool
   deriving DecidableEq, Repr
 
-def replaceCh (c : Char) (r : Str) : Str → Str
-  | [] => []
-  | x :: xs => if x = c then r ++ replaceCh c r xs else x :: replaceCh c r xs
-
-/-- `escape_js_string`: five sequential `replace`s, backslash first -/
-def escapeJs (s : Str) : Str :=
-  replaceCh '\t' ['\\', 't'] (replaceCh '\r' ['\\', 'r'] (replaceCh '\n' ['\\', 'n']
-    (replaceCh '"' ['\\', '"'] (replaceCh '\\' ['\\', '\\'] s))))
+/-- `escape_js_string` / the `escape_js` filter: five sequential `replace`s, backslash first (Esc.lean) -/
+def escapeJs (s : Str) : Str := P.escapeJs s
 
 def msgSuffix (msg : Option Str) : Str :=
   match msg with
-  | some mtxt => ", { message: \"".toList ++ escapeJs mtxt ++ "\" }".toList
+  | some mtxt => cl!", { message: \"" ++ escapeJs mtxt ++ cl!"\" }"
   | none => []
 
 /-- the common body of `apply_length_validator` / `apply_range_validator` -/
 def applyBound (schema : Str) (b : Bound) : Str :=
   match b.min, b.max with
   | some mn, some mx =>
-    schema ++ ".min(".toList ++ mn ++ msgSuffix b.message ++ ")".toList ++ ".max(".toList ++ mx ++ msgSuffix b.message ++ ")".toList
-  | some mn, none => schema ++ ".min(".toList ++ mn ++ msgSuffix b.message ++ ")".toList
-  | none, some mx => schema ++ ".max(".toList ++ mx ++ msgSuffix b.message ++ ")".toList
+    schema ++ cl!".min(" ++ mn ++ msgSuffix b.message ++ cl!")" ++ cl!".max(" ++ mx ++ msgSuffix b.message ++ cl!")"
+  | some mn, none => schema ++ cl!".min(" ++ mn ++ msgSuffix b.message ++ cl!")"
+  | none, some mx => schema ++ cl!".max(" ++ mx ++ msgSuffix b.message ++ cl!")"
   | none, none => schema
 
 def applyLength (schema : Str) (v : Option Validator) (skip : Bool) : Str :=
@@ -142,31 +137,31 @@ def applyStringValidators (schema : Str) (v : Option Validator) (skip : Bool) : 
   match v with
   | none => schema
   | some val =>
-    let r1 := if val.email then schema ++ ".email()".toList else schema
-    let r2 := if val.url then r1 ++ ".url()".toList else r1
+    let r1 := if val.email then schema ++ cl!".email()" else schema
+    let r2 := if val.url then r1 ++ cl!".url()" else r1
     applyLength r2 v skip
 
 def renderPrimitive (p : Str) (v : Option Validator) (skip isKey : Bool) : Str :=
-  if p = "string".toList then applyStringValidators "z.string()".toList v skip
-  else if p = "number".toList then
-    applyRange (if isKey then "z.number()".toList else "z.coerce.number()".toList) v skip
-  else if p = "boolean".toList then "z.coerce.boolean()".toList
-  else if p = "void".toList then "z.void()".toList
-  else "z.unknown() /* Unknown primitive: ".toList ++ p ++ " */".toList
+  if p = cl!"string" then applyStringValidators cl!"z.string()" v skip
+  else if p = cl!"number" then
+    applyRange (if isKey then cl!"z.number()" else cl!"z.coerce.number()") v skip
+  else if p = cl!"boolean" then cl!"z.coerce.boolean()"
+  else if p = cl!"void" then cl!"z.void()"
+  else cl!"z.unknown() /* Unknown primitive: " ++ p ++ cl!" */"
 
 mutual
 /-- `ZodSchemaBuilder::render_type(ts, validator, skip_validation, is_record_key)` -/
 def renderType (m : Mappings) (v : Option Validator) : TS → Bool → Bool → Str
-  | .optional t, _, isKey => renderType m v t false isKey ++ ".optional()".toList
+  | .optional t, _, isKey => renderType m v t false isKey ++ cl!".optional()"
   | .prim p, skip, isKey => renderPrimitive p v skip isKey
-  | .array t, skip, _ => applyLength ("z.array(".toList ++ renderType m v t true false ++ [')']) v skip
-  | .map k val, _, _ => "z.record(".toList ++ renderType m v k true true ++ sComma ++ renderType m v val true false ++ [')']
-  | .set t, _, _ => "z.set(".toList ++ renderType m v t true false ++ [')']
+  | .array t, skip, _ => applyLength (cl!"z.array(" ++ renderType m v t true false ++ [')']) v skip
+  | .map k val, _, _ => cl!"z.record(" ++ renderType m v k true true ++ sComma ++ renderType m v val true false ++ [')']
+  | .set t, _, _ => cl!"z.set(" ++ renderType m v t true false ++ [')']
   | .tuple ts, _, _ =>
     match ts with
-    | .nil => "z.void()".toList
-    | .cons t rest => "z.tuple([".toList ++ joinWith sComma (renderType m v t true false :: renderTypeList m v rest) ++ "])".toList
-  | .result t, _, _ => "z.union([".toList ++ renderType m v t true false ++ ", z.object({ error: z.string() })])".toList
+    | .nil => cl!"z.void()"
+    | .cons t rest => cl!"z.tuple([" ++ joinWith sComma (renderType m v t true false :: renderTypeList m v rest) ++ cl!"])"
+  | .result t, _, _ => cl!"z.union([" ++ renderType m v t true false ++ cl!", z.object({ error: z.string() })])"
   | .custom n, _, _ => zodCustom m n
 def renderTypeList (m : Mappings) (v : Option Validator) : TSList → List Str
   | .nil => []
@@ -181,9 +176,9 @@ def endsWith (s suf : Str) : Bool := startsWith s.reverse suf.reverse
 def dropEnd (n : Nat) (s : Str) : Str := (s.reverse.drop n).reverse
 
 def isPrimKw (s : Str) : Bool :=
-  s ∈ ["void", "string", "number", "boolean", "any", "unknown", "null", "undefined"].map String.toList
+  s ∈ [cl!"void", cl!"string", cl!"number", cl!"boolean", cl!"any", cl!"unknown", cl!"null", cl!"undefined"]
 def isArrPrim (s : Str) : Bool :=
-  s ∈ ["string", "number", "boolean", "void"].map String.toList
+  s ∈ [cl!"string", cl!"number", cl!"boolean", cl!"void"]
 
 /-- one level; `rec` is the recursive call (on a strictly shorter string) -/
 def addPrefixBody (rec : Str → Str) (s : Str) : Str :=
